@@ -8,7 +8,8 @@ _counter = itertools.count()
 
 
 def fresh_name(base):
-    return "%s!%d" % (base, next(_counter))
+    import pyvc.values as _v
+    return "%s!%d" % (base, next(_v._counter))
 
 
 class Unsupported(Exception):
